@@ -142,7 +142,7 @@ def discharge(ob, timeout_ms):
         if r0 == z3.unsat:
             return PROVED, "z3", time.time() - t, None
     s = z3.Solver()
-    s.set("timeout", timeout_ms)
+    s.set("timeout", backends.scaled_timeout(timeout_ms))
     s.add(*ob.pc)
     s.add(*ob.axioms)
     s.add(z3.Not(g))
